@@ -233,6 +233,11 @@ def newCert (E : Env) (s : St) (e : Nat) : Option CertRec :=
                  signers := metadataSigners s e }
         else none
 
+/-- SIGNING → READY keeps the time point of the signing state -/
+def readyOf : Rt → Rt
+  | .signing ep _ => .ready ep
+  | r => r
+
 def addSignedEntity (ses : List (Nat × Nat)) (e id : Nat) : List (Nat × Nat) :=
   if ses.any (·.1 = e) then ses else ses ++ [(e, id)]     -- unique index (type, beacon)
 
@@ -249,7 +254,7 @@ def createCertificate (E : Env) (s : St) (e : Nat) : St :=
                                              avk := s.es.getD 0, signers := metadataSigners s e }],
                    oms := updOm e (fun o => { o with certified := true }) s.oms,
                    ses := addSignedEntity s.ses e s.certs.length,
-                   rt := match s.rt with | .signing ep _ => .ready ep | r => r }
+                   rt := readyOf s.rt }
         else s
 
 /-! ### epoch initialisation -/
@@ -291,11 +296,15 @@ def readyStep (E : Env) (s : St) (tp : Tp) : St :=
       | (s2, true) => s2      -- the store panics on the foreign key: the tick dies, runtime state kept
   | (oms', none) => { s with oms := oms', rt := .ready tp.epoch }
 
+/-- `is_open_message_outdated`: expired, or the time point now yields another entity for the discriminant -/
+def isOutdated (tp : Tp) (e : Nat) (oms1 : List OM) : Bool :=
+  (match findOm e oms1 with | some o => o.expired | none => false) || !(tp.avail.contains e)
+
 /-- `cycle_signing` -/
 def signingStep (E : Env) (s : St) (tp : Tp) (ep e : Nat) : St :=
   let oms1 := markExpired tp.now e s.oms
   let s1 := { s with oms := oms1 }
-  let outdated := (match findOm e oms1 with | some o => o.expired | none => false) || !(tp.avail.contains e)
+  let outdated := isOutdated tp e oms1
   if ep < tp.epoch then { s1 with rt := .idle (some ep) }
   else if outdated then { s1 with rt := .ready ep }
   else createCertificate E s1 e
@@ -320,7 +329,7 @@ def tickOut (E : Env) (s : St) (tp : Tp) : Nat :=
       | none => 0
   | .signing ep e =>
     let oms1 := markExpired tp.now e s.oms
-    let outdated := (match findOm e oms1 with | some o => o.expired | none => false) || !(tp.avail.contains e)
+    let outdated := isOutdated tp e oms1
     if !(ep < tp.epoch) && !outdated && (newCert E { s with oms := oms1 } e).isNone then 1 else 0
   | _ => 0
 
@@ -356,7 +365,7 @@ deriving Repr, DecidableEq
 /-- `create_certificate` + artifact task cut at `p` (only called when `newCert` is `some c`) -/
 def createCertificateCut (s : St) (e : Nat) (c : CertRec) (p : CrashPoint) : St :=
   let certified := updOm e (fun o => { o with certified := true }) s.oms
-  let ready : Rt := match s.rt with | .signing ep _ => .ready ep | r => r
+  let ready : Rt := readyOf s.rt
   match p with
   | .certBeforeInsert => s
   | .certAfterInsert => { s with certs := s.certs ++ [c] }
@@ -367,7 +376,7 @@ def createCertificateCut (s : St) (e : Nat) (c : CertRec) (p : CrashPoint) : St 
 def signingStepCut (E : Env) (s : St) (tp : Tp) (ep e : Nat) (p : CrashPoint) : St :=
   let oms1 := markExpired tp.now e s.oms
   let s1 := { s with oms := oms1 }
-  let outdated := (match findOm e oms1 with | some o => o.expired | none => false) || !(tp.avail.contains e)
+  let outdated := isOutdated tp e oms1
   if ep < tp.epoch then { s1 with rt := .idle (some ep) }
   else if outdated then { s1 with rt := .ready ep }
   else match newCert E s1 e with
@@ -417,7 +426,7 @@ def crashTickOut (E : Env) (s : St) (tp : Tp) (p : CrashPoint) : Nat :=
       | _ => 0
   | .signing ep e =>
     let oms1 := markExpired tp.now e s.oms
-    let outdated := (match findOm e oms1 with | some o => o.expired | none => false) || !(tp.avail.contains e)
+    let outdated := isOutdated tp e oms1
     if ep < tp.epoch || outdated then 0
     else match newCert E { s with oms := oms1 } e with
       | none => 1
@@ -436,7 +445,7 @@ def crashFires (E : Env) (s : St) (tp : Tp) (p : CrashPoint) : Bool :=
       | _ => false)
   | .signing ep e =>
     let oms1 := markExpired tp.now e s.oms
-    let outdated := (match findOm e oms1 with | some o => o.expired | none => false) || !(tp.avail.contains e)
+    let outdated := isOutdated tp e oms1
     !(ep < tp.epoch) && !outdated && (newCert E { s with oms := oms1 } e).isSome &&
       !(p == .hoBefore || p == .hoBeforeRemoval || p == .hoAfterRemoval)
   | _ => false
@@ -461,7 +470,7 @@ def step (E : Env) (s : St) : Event → St
 recorded under the keys `g-1` and `g` (`init_state_from_fixture_for_genesis`) -/
 def init (n g : Nat) : St :=
   { rt := .idle none, oms := [], certs := [{ id := 0, entity := none, epoch := g, parent := none, avk := g, signers := [] }],
-    sigs := [], cleaned := 0, seen := 0, buf := [], ses := [],
+    sigs := [], cleaned := 0, seen := g, buf := [], ses := [],
     regs := (List.range n).map (fun p => (g - 1, p)) ++ (List.range n).map (fun p => (g, p)),
     es := none, round := none }
 
